@@ -107,7 +107,7 @@ func (dist *BetaDistribution) LogPdf(r Scalar, x ConstScalar) error {
   t2 := dist.t2
 
   if dist.LogScale {
-    if v := dist.bs1.GetFloat64(); v == 0.0 {
+    if v := dist.bs1.GetFloat64(); v == 0.0 && x.GetFloat64() == 0.0 {
       t2.SetFloat64(0.0)
     } else {
       // t2 = log(1-theta)
@@ -115,14 +115,14 @@ func (dist *BetaDistribution) LogPdf(r Scalar, x ConstScalar) error {
       // t2 = beta*log(1-theta)
       t2.Mul(t2, dist.bs1)
     }
-    if v := dist.as1.GetFloat64(); v == 0.0 {
+    if v := dist.as1.GetFloat64(); v == 0.0 && math.IsInf(x.GetFloat64(), -1) {
       t1.SetFloat64(0.0)
     } else {
       // t1 = alpha*log(theta)
       t1.Mul(dist.as1, x)
     }
   } else {
-    if v := dist.bs1.GetFloat64(); v == 0.0 {
+    if v := dist.bs1.GetFloat64(); v == 0.0 && x.GetFloat64() == 1.0 {
       t2.SetFloat64(0.0)
     } else {
       // t2 = 1-theta
@@ -132,7 +132,7 @@ func (dist *BetaDistribution) LogPdf(r Scalar, x ConstScalar) error {
       // t2 = beta*log(1-theta)
       t2.Mul(t2, dist.bs1)
     }
-    if v := dist.as1.GetFloat64(); v == 0.0 {
+    if v := dist.as1.GetFloat64(); v == 0.0 && x.GetFloat64() == 0.0 {
       t1.SetFloat64(0.0)
     } else {
       // t1 = log(theta)
